@@ -3,6 +3,7 @@ package c15
 import (
 	"fmt"
 	"runtime"
+	"sync/atomic"
 	"testing"
 
 	"github.com/enbility/spine-go/api"
@@ -185,10 +186,10 @@ func (b *bench) announce(t world.TB, idx int, st coreStep, p *world.Peer) {
 	cmd := model.CmdType{NodeManagementDetailedDiscoveryData: p.DiscoveryData(ents, nil)}
 	raw := world.Encode(p.Msg(model.CmdClassifierTypeReply, p.NM(), world.LocalNM(), false, p.DiscoveryRef, cmd))
 
-	writes := 0 // only touched on the injecting goroutine (the core handler runs on it)
+	var writes atomic.Int32
 	p.Cap.SetOnWrite(func([]byte) {
-		writes++
-		if writes == 1 && st.Re != nil {
+		// the first write after the injection is the core handler's subscription call
+		if writes.Add(1) == 1 && st.Re != nil {
 			// the SHIP writer is the one place where application code runs inside the core
 			// handler: a (un)subscription from there must not block either
 			if st.Re.Kind == "sub" {
